@@ -12,6 +12,7 @@ KSRC = os.path.join(VERIF, 'kani')
 KWORK = os.path.join(VERIF, '.work', 'kani' if X.REPO == '/repo' else 'kani_alt')
 
 HARNESS_RE = re.compile(r'^(?:\w+_harness|harness)!\(\s*(\w+)\s*,', re.M)
+MISC_RE = re.compile(r'^(?:\w+!\(|pub fn )(misc_\w+)', re.M)
 PLAIN_RE = re.compile(r'#\[cfg_attr\(kani, kani::proof\)\][^\n]*\n(?:\s*#\[[^\n]*\n)*\s*pub fn (\w+)\s*\(', re.M)
 
 
@@ -30,6 +31,8 @@ def harness_names():
             for m in PLAIN_RE.finditer(body):
                 if not m.group(1).startswith('$'):
                     out.append((mod, m.group(1)))
+            for m in MISC_RE.finditer(body):
+                out.append((mod, m.group(1)))
     seen = set()
     res = []
     for mod, n in out:
@@ -58,8 +61,16 @@ def prepare():
             if not os.path.exists(d) or open(d).read() != data:
                 open(d, 'w').write(data)
     names = harness_names()
-    table = 'pub const TABLE: &[(&str, fn())] = &[\n' + ''.join(
-        '    ("%s", crate::%s::%s),\n' % (n, mod, n) for mod, n in names) + '];\n'
+    lines = ['pub fn table() -> Vec<(&\'static str, fn())> {\n    let mut v: Vec<(&\'static str, fn())> = Vec::new();\n']
+    for mod, n in names:
+        cfg = ''
+        if n.startswith('misc_drop_'):
+            cfg = '#[cfg(all(not(kani), feature = "zeroize"))] '
+        elif n.startswith('misc_'):
+            cfg = '#[cfg(not(kani))] '
+        lines.append('    %sv.push(("%s", crate::%s::%s as fn()));\n' % (cfg, n, mod, n))
+    lines.append('    v\n}\n')
+    table = ''.join(lines)
     tp = os.path.join(dst, 'table.rs')
     if not os.path.exists(tp) or open(tp).read() != table:
         open(tp, 'w').write(table)
@@ -86,7 +97,7 @@ def build_native(features=()):
     prepare()
     cmd = ['cargo', 'build', '--offline', '--release', '--bin', 'replay']
     if features:
-        cmd += ['--features', ','.join(features)]
+        cmd += ['--features', ','.join(features), '--target-dir', os.path.join(KWORK, 'target_' + '_'.join(features))]
     t0 = time.time()
     p = subprocess.run(cmd, cwd=KWORK, env=_env(), stdout=subprocess.PIPE, stderr=subprocess.STDOUT, text=True)
     ok = p.returncode == 0
@@ -94,11 +105,11 @@ def build_native(features=()):
     return _native_built[key]
 
 
-def native(args, timeout=120):
-    ok, out, _ = build_native()
+def native(args, timeout=120, features=()):
+    ok, out, _ = build_native(features)
     if not ok:
         return {'status': 'build-failed', 'output': out}
-    exe = os.path.join(KWORK, 'target', 'release', 'replay')
+    exe = os.path.join(KWORK, 'target' + ('_' + '_'.join(features) if features else ''), 'release', 'replay')
     try:
         p = subprocess.run([exe] + args, stdout=subprocess.PIPE, stderr=subprocess.STDOUT, text=True, timeout=timeout)
     except subprocess.TimeoutExpired:
@@ -106,9 +117,13 @@ def native(args, timeout=120):
     return {'status': 'ok', 'rc': p.returncode, 'output': p.stdout.strip()}
 
 
+def feats_of(harness):
+    return ('zeroize',) if harness.startswith('misc_drop_') else ()
+
+
 def search(harness, iters=20000, seed=1):
     """random search for a failing input of one harness on the real code (exploration, not a proof)"""
-    r = native(['search', harness, str(iters), str(seed)])
+    r = native(['search', harness, str(iters), str(seed)], features=feats_of(harness))
     if r['status'] != 'ok':
         return r
     m = re.search(r'FOUND harness=(\S+) iter=(\d+) bytes=([0-9a-f]*) assertion=(.*)', r['output'])
@@ -118,7 +133,7 @@ def search(harness, iters=20000, seed=1):
 
 
 def replay(harness, hexbytes):
-    r = native(['replay', harness, hexbytes])
+    r = native(['replay', harness, hexbytes], features=feats_of(harness))
     if r['status'] != 'ok':
         return r
     return {'status': 'fail' if r['rc'] == 1 else ('pass' if r['rc'] == 0 else 'error'), 'output': r['output']}
